@@ -369,6 +369,11 @@ def make_harness(cfg_timeout: str, cfg_retry: str, self_timeout: str,
                 # documented in DESIGN as outcomes the statement does not name
                 I.prove("O-error-in-pending-phase-sends-nothing-more",
                         writes <= eff_retry.t + 1)
+                if issubclass(exc.cls, ConnectionError):
+                    # before the first reply of an attempt a lost connection (error or empty
+                    # read) is a retry-worthy event, never the request's outcome
+                    I.prove("O-connection-loss-before-the-first-reply-of-an-attempt-is-retried-"
+                            "not-raised", I.ghost["parses_in_attempt"] >= 1)
             else:
                 I.fail("O-unexpected-exception-class", exc.cls.__name__)
             return
